@@ -34,7 +34,7 @@ def jobs(tier):
 def run(pid, tier, seed):
     exe = vlib.build_harness("scopes", ["scopes.cxx"])
     q = tier == "quick"
-    tdir = os.path.join(vlib.BUILD, "traces")
+    tdir = vlib.trace_dir()
     os.makedirs(tdir, exist_ok=True)
     tp = os.path.join(tdir, "%s-%s-%d.ndjson" % (pid, tier, seed))
     rn, rt = 12, 6
